@@ -14,7 +14,7 @@ fn run_in(dir: &str, args: &[String]) -> Run {
     Run { ok, opt: std::fs::read(format!("{}/opt.xyz", dir)).ok() }
 }
 
-fn parse_xyz(bytes: &[u8]) -> Option<(Vec<String>, Vec<[f64; 3]>)> {
+pub fn parse_xyz(bytes: &[u8]) -> Option<(Vec<String>, Vec<[f64; 3]>)> {
     let text = String::from_utf8(bytes.to_vec()).ok()?;
     let mut syms = vec![]; let mut xs = vec![];
     for l in text.lines().skip(2) {
